@@ -41,8 +41,31 @@ CHECKS["C12"] = {
     "note": "sin/cos/tan/atan2/sqrt uninterpreted (values of libm outside); float constants snapped to the rationals they round (perturbation < 1e-14, absorbed by a 1e-9 margin); |theta_arc| >= pi <=> large-arc not encoded; centre checked on 3-4 base arcs x symbolic scale rather than for arbitrary arcs (general query is out of solver reach: probe in DESIGN).",
     "design_ref": "DESIGN.md 2/C12",
 }
+_PIPE_NOTE = "abstract Skia contract trusted (set semantics of op, stroker geometry, area, bounds); round is the identity in this harness; 1e-9 snap band assumed empty (C09); arcs and zero-area shapes outside; structure enumerated by the template family, numbers universally quantified."
+CHECKS.update({
+    "C02": {
+        "text": "The whole topicosvg pipeline executed symbolically on ~35 template documents (nested groups, transform lists, use with x/y/transform, nested svg with every preserveAspectRatio class and overflow, display:none) whose numbers are z3 reals, under the abstract Skia; an independent SVG rendering model gives the paint tree of source and output, leaves are identified by provable coordinate equality and composited colour/alpha at a symbolic sample point (free coverage atoms) must agree - one SMT validity query per path.",
+        "note": _PIPE_NOTE,
+        "design_ref": "DESIGN.md 2/C02",
+    },
+    "C03": {
+        "text": "Same machinery on clipPath templates (1-3 children, clip-rule per child / on clipPath, transforms on clipPath and children, clip of a clip, clips on shapes/groups/use, ancestor chains, use inside clipPath): every output region term must be propositionally equivalent to shape AND (OR of clip children) per clip, in the referencing element's coordinate system; output carries no clip-path.",
+        "note": _PIPE_NOTE,
+        "design_ref": "DESIGN.md 2/C03",
+    },
+    "C04": {
+        "text": "Stroke bookkeeping on ~30 templates (cap x join, dash arrays, offsets, miterlimit, inheritance, style, transforms, opacities, clip, use, viewBox-derived tolerance): the stroke piece is Xf(Simplify(C2Q(Stroke(shape in own coordinates, parameters == cascade values), tolerance)), CTM), painted above the fill with the right paint and opacity; no stroke attribute survives. Replays intercept the real Skia calls (recording subclass of pathops.Path) and compare the parameters asked.",
+        "note": _PIPE_NOTE + " NOT APPLICABLE PART: the outline geometry (w/2 neighbourhood, caps, joins, miter, dashes, 0.25-unit accuracy) is computed entirely inside Skia's stroker.",
+        "design_ref": "DESIGN.md 2/C04",
+    },
+    "C05": {
+        "text": "Paint/opacity cascade on ~30 templates (fill, fill-opacity, opacity, display, fill-rule by attribute / style / both, on root, nested groups, use, shapes): composite(source) == composite(output) as a QF_NRA validity query with opacities in [0,1], one colour symbol per paint and a free coverage Boolean per leaf (all overlap patterns).",
+        "note": _PIPE_NOTE + " 'inherit'/currentColor and opacities outside [0,1] outside.",
+        "design_ref": "DESIGN.md 2/C05",
+    },
+})
 NOT_APPLICABLE = {
     "C17": "termination/time-bound over cyclic reference graphs and libxml2 entity loading: no numeric or byte-level input to make symbolic, non-termination is not an assertion a bounded symbolic path can refute (budget exhausted = inconclusive); enumerating reference graphs under a watchdog would be a different technique family (DESIGN.md section 3)",
 }
-for _p in ["C01","C02","C03","C04","C05","C06","C07","C08","C10","C14","C15","C16"]:
+for _p in ["C01","C06","C07","C08","C10","C14","C15","C16"]:
     NOT_APPLICABLE.setdefault(_p, PENDING)
